@@ -651,7 +651,7 @@ func runDuplicates(r *ev.Run) {
 					} else {
 						outcomes.Add("rejected")
 					}
-					if sub.Evaluations%9973 == 1 {
+					if sub.Evaluations == 20000 {
 						r.Sample(map[string]any{"sub": "selector-duplicates", "shards": l, "rejected": sig == ""})
 					}
 				}
